@@ -69,3 +69,41 @@ func GoodAllVertices(g G, v int) []int {
 	}
 	return all
 }
+
+// WALK: a neighbour list walked while the graph is edited in the same loop must be a snapshot.
+type rows struct{ nb [][]int }
+
+func (r *rows) Shared(v int) []int { return r.nb[v] }
+func (r *rows) Snapshot(v int) []int {
+	out := make([]int, len(r.nb[v]))
+	copy(out, r.nb[v])
+	return out
+}
+func (r *rows) Drop(v, u int) {
+	row := r.nb[v]
+	for i, x := range row {
+		if x == u {
+			copy(row[i:], row[i+1:])
+			r.nb[v] = row[:len(row)-1]
+			return
+		}
+	}
+}
+
+func BadWalkShared(r *rows, v int) int {
+	n := 0
+	for _, u := range r.Shared(v) {
+		r.Drop(v, u)
+		n++
+	}
+	return n
+}
+
+func GoodWalkSnapshot(r *rows, v int) int {
+	n := 0
+	for _, u := range r.Snapshot(v) {
+		r.Drop(v, u)
+		n++
+	}
+	return n
+}
